@@ -502,11 +502,23 @@ def crc_reset_rule(ctx, repo, eff):
                 if name not in ("__init__",):
                     every |= writes(ci, fi)[0]
         config_fields = r_init - every     # fields init reads that nothing but the constructor writes
-        ok = order_ok and w_use <= w_init and r_init <= (config_fields | set()) and bool(w_use)
+        # init must give the register a FRESH object: `self.x = self.<configuration field>` (no copy, no constructor call) makes the
+        # working register an alias of the configuration object, and the in-place shifts / xors of the use phase then change the
+        # configuration for every later call
+        aliased = []
+        fi_init = repo.find_method(ci, "init")
+        for n_ in ast.walk(fi_init.node) if fi_init is not None else ():
+            if isinstance(n_, ast.Assign) and isinstance(n_.value, ast.Attribute) and isinstance(n_.value.value, ast.Name) and n_.value.value.id == "self" \
+                    and n_.value.attr in config_fields:
+                for t_ in n_.targets:
+                    if isinstance(t_, ast.Attribute) and isinstance(t_.value, ast.Name) and t_.value.id == "self":
+                        aliased.append(f"line {n_.lineno}: self.{t_.attr} = self.{n_.value.attr} (the configuration object itself, not a copy)")
+        ok = order_ok and w_use <= w_init and r_init <= (config_fields | set()) and bool(w_use) and not aliased
         ctx.ob("shared/crc-reset-before-use", f"{ci.qualname}", ok,
                f"in calculate_checksum every update() / digest() of self.{reg_attr} is preceded by its init() on every path: {order_ok}{(' (' + '; '.join(problems[:2]) + ')') if problems else ''}; "
                f"written while in use {sorted(w_use)}, re-initialised by init {sorted(w_init)}, "
-               f"init reads {sorted(r_init)} of which only constructor-written {sorted(config_fields)}", ci.loc)
+               f"init reads {sorted(r_init)} of which only constructor-written {sorted(config_fields)}"
+               + (f"; init aliases a configuration object: {'; '.join(aliased[:2])}" if aliased else ""), ci.loc)
         if ok:
             proved.add(ci.qualname)
     return proved, len(regs), w_use | w_init
@@ -632,7 +644,9 @@ def cached_result_rules(ctx, repo, eff):
         nt += 1
         fs = eff.summ[f.qualname]
         hit = sorted(o[1] for o in fs.ret_own if isinstance(o, tuple) and o in inv and not o[1].startswith("cached result of"))
-        if hit and fs.ret_kind != "imm":
+        # only results that are DEFINITELY buffers (a numpy view, a bitarray / bytearray): an element of unknown kind looked up in a
+        # table (an int, a tuple, an enumeration member) is what most table look-ups return, and it is immutable
+        if hit and fs.ret_kind in ("np", "flat"):
             ctx.ob("shared/table-handed-out", f.qualname, False, f"the result may be (a view of) the process-lifetime object {hit[0]} ({inv[('S', hit[0])][0]}) — a caller that edits it changes what every later call returns", f.loc)
     ctx.ob("shared/table-handed-out", "all codec functions", True, f"{nt} functions inspected", "")
 
